@@ -102,10 +102,21 @@ func SpareDisjoint[T any](b, v []T) bool {
 }
 
 // Frame vocabulary (only meaningful to the verifier).
-func AssignsAt[T any](p *T)             {}
-func AssignsElems[T any](s []T)         {}
-func AssignsSpare[T any](s []T)         {}
-func AssignsGhost[T any](v T) {}
+func AssignsAt[T any](p *T)     {}
+func AssignsElems[T any](s []T) {}
+func AssignsSpare[T any](s []T) {}
+func AssignsGhost[T any](v T)   {}
+func AssignsWhen(cond bool)     {}
+
+// Mathint is the type of mathematical (unbounded) integers in specifications. The verifier maps
+// it to the integers; executed concretely it is a machine int (specifications that need more
+// than 63 bits are proof-only).
+type Mathint int
+
+// Arr32, Arr48 and Arr64 view a byte array value as a string.
+func Arr32(a [32]byte) string { return string(a[:]) }
+func Arr48(a [48]byte) string { return string(a[:]) }
+func Arr64(a [64]byte) string { return string(a[:]) }
 
 // B1 is the one-byte string holding x.
 func B1(x byte) string { return string([]byte{x}) }
@@ -115,7 +126,7 @@ func U16(x uint16) string { return string([]byte{byte(x >> 8), byte(x)}) }
 
 // Chunk is the i-th block of size bytes of s counted from offset at.
 //
-//@ spec rec
+// @ spec rec
 func Chunk(s string, at, size, i int) string { return s[at+size*i : at+size*i+size] }
 
 // Zeros is the string of n zero bytes.
